@@ -19,6 +19,7 @@ META = {
     "rule": "cache: history = sequence of get(key) calls on one cache array with one parity flag, distinct by (flag, key sequence), non-trivial = fills at least one dependency slot; values: cell = (law, sum, N or point index, flag), all non-trivial",
 }
 
+SIMPLE = {"S1", "S2", "S3", "S4", "S5", "Sm1", "Sm2", "Sm3", "Sm4", "Sm5"}
 GUARDS = ["MixedParity", "S1ph-from-S1h", "g3p2-from-S1", "Sm22-skips-Sm31"]
 
 
@@ -33,7 +34,7 @@ def cache_part(chk):
     guards = GUARDS if chk.thorough() else [GUARDS[0], GUARDS[1 + chk.seed % 3]]
     for g in guards:
         chk.tlc("HarmonicCacheMC", f"HarmonicCacheMC_{g}.cfg", workers=1, expect_violation="C24_Cache",
-                label=f"vacuity guard: switch {g}")
+                label=f"vacuity guard: switch {g}", env=dict(E.FAST_JVM))
     # binding of names and indices
     from ekore.harmonics import cache as c
 
@@ -63,7 +64,8 @@ def cache_part(chk):
         chk.count(len(tr), (par, tuple(order)), nontrivial=True)
     chk.sample({"cache_call": recs[0]})
     chk.sample({"cache_call": recs[40]})
-    r = chk.tlc("HarmonicCacheTrace", "HarmonicCacheTrace.cfg", workers=1, trace=recs, label="real cache.get traces")
+    r = chk.tlc("HarmonicCacheTrace", "HarmonicCacheTrace.cfg", workers=1, trace=recs, label="real cache.get traces",
+                env=dict(E.FAST_JVM))
     if r.violated or not r.completed:
         raise MachineryError(f"HarmonicCacheTrace not accepted: {r.out[-1500:]}")
     chk.cov["traces_validated_against_impl"] += len(recs)
@@ -84,7 +86,7 @@ def cache_part(chk):
     good[12]["same"] = False
     good[20]["filled"] = good[20]["filled"][:-1]
     r = chk.tlc("HarmonicCacheTrace", "HarmonicCacheTrace.cfg", workers=1, trace=good,
-                label="corrupted cache records (must be rejected)")
+                label="corrupted cache records (must be rejected)", env=dict(E.FAST_JVM))
     got = {(t[1], t[2].split(":")[0]) for t in r.printed("BAD")}
     if not {(6, "C24"), (10, "C24"), (13, "C24"), (21, "CONF")} <= got:
         raise MachineryError(f"binding demonstration (cache) failed: {sorted(got)}")
@@ -133,7 +135,7 @@ def values_part(chk):
     worst = {}
     for c, o, i in measured:
         if "res" in i:
-            tier = "simple" if (c["sum"][1:].isdigit() or c["sum"][2:].isdigit()) and len(c["sum"]) <= 3 else c["sum"]
+            tier = "simple" if c["sum"] in SIMPLE else c["sum"]
             worst[tier] = max(worst.get(tier, 0.0), i["res"])
     chk.note("worst_residual_per_sum", {k: f"{v:.2e}" for k, v in sorted(worst.items())})
     chk.sample({"cell": measured[0][0], "obs": measured[0][1]})
